@@ -100,7 +100,7 @@ Variables (maxCap stepRaw blockCount : nat) (linear multi : bool).
 (* ---------- the shape invariant: uniform depth d, |children| = |items| + 1, count <= capacity <= maxCapacity;
    empty nodes are allowed (lazy rebalancing) ---------- *)
 Fixpoint shape (d : nat) (n : node) : Prop :=
-  n_count n <= n_cap n /\ n_cap n <= maxCap /\
+  n_count n <= n_cap n /\ 0 < n_cap n <= maxCap /\
   match d with
   | 0 => n_children n = []
   | S d' => length (n_children n) = S (n_count n) /\ Forall (shape d') (n_children n)
